@@ -134,9 +134,8 @@ impl Write for WebsocketStream {
 impl Drop for WebsocketStream {
     fn drop(&mut self) {
         if !self.closed {
-            self.stream
-                .write_all(Frame::new(Opcode::Close, Vec::new()).as_ref())
-                .ok();
+            let close: Vec<u8> = Frame::new(Opcode::Close, Vec::new()).into();
+            self.stream.write_all(&close).ok();
         }
     }
 }
